@@ -75,9 +75,16 @@ func branchesReposDecode(b []byte) ([]BranchRepos, error) {
 	}
 
 	l := r.uvarint() // Length
+	// every entry takes at least 2 bytes
+	if r.err != nil || l < 0 || l > len(r.b) {
+		return nil, errors.New("malformed BranchRepos")
+	}
 	brs := make([]BranchRepos, l)
 
 	for i := range l {
+		if r.err != nil {
+			return nil, r.err
+		}
 		brs[i].Branch = r.str()
 		brs[i].Repos = r.bitmap()
 	}
@@ -168,9 +175,15 @@ func stringSetDecode(b []byte) (map[string]struct{}, error) {
 
 	// Length
 	l := r.uvarint()
+	if r.err != nil || l < 0 || l > len(r.b) { // every string takes at least 1 byte
+		return nil, errors.New("malformed stringSet")
+	}
 	set := make(map[string]struct{}, l)
 
 	for range l {
+		if r.err != nil {
+			return nil, r.err
+		}
 		set[r.str()] = struct{}{}
 	}
 
@@ -195,7 +208,7 @@ func (b *binaryReader) uvarint() int {
 
 func (b *binaryReader) str() string {
 	l := b.uvarint()
-	if l > len(b.b) {
+	if l < 0 || l > len(b.b) {
 		b.b = nil
 		b.err = errors.New("malformed RepoBranches")
 		return ""
@@ -207,7 +220,7 @@ func (b *binaryReader) str() string {
 
 func (b *binaryReader) bitmap() *roaring.Bitmap {
 	l := b.uvarint()
-	if l > len(b.b) {
+	if l < 0 || l > len(b.b) {
 		b.b = nil
 		b.err = errors.New("malformed BranchRepos")
 		return nil
